@@ -5,6 +5,8 @@ pub mod net;
 pub mod protocol;
 pub mod protocol7;
 pub mod time;
+#[cfg(libtw2_verif)]
+pub mod verif;
 
 pub use self::connection::Connection;
 pub use self::net::Net;
